@@ -180,7 +180,7 @@ def run(ctx: Ctx) -> None:
             return (lab, s["cfg"]["cap"], s["cfg"]["world"], s["st"]["k"], s["st"]["fail"], len(s["mem"]), len(s["held"]),
                     d["st"]["io"] != -1, len(d["mem"]), d["st"]["pc"])
 
-        paths = g.edge_cover_paths(ctx.rng, max_paths=700 if ctx.quick else 6000, key=key, max_len=60)
+        paths = g.edge_cover_paths(ctx.rng, max_paths=500 if ctx.quick else 6000, key=key, max_len=60)
         ctx.extra["histories_from_edge_cover"] = len(paths)
         if not ctx.quick:
             paths += g.random_paths(ctx.rng, 3000, 60)
